@@ -335,7 +335,7 @@ let sim_main () =
          print_endline "scenario"
        | ["part"; c; spec] ->
          let p = if spec = "-" then [[]] else
-           List.map (fun m -> List.map n_of_dec (String.split_on_char ',' m)) (String.split_on_char '|' spec) in
+           List.map (fun m -> if m = "" then [] else List.map n_of_dec (String.split_on_char ',' m)) (String.split_on_char '|' spec) in
          parts := (n_of_dec c, p) :: !parts; dot := false
        | "sop" :: "ev" :: ty :: mode :: seq :: rest ->
          let m = (match mode with
